@@ -5,6 +5,9 @@
 //! whole result (elements bit for bit incl. the sign of zero, or the error kind).
 //! Laws: independent SVG-specification interpreter of abstract command lists vs. `from_svg` on
 //! random spellings; round trips; documented errors on malformed input; arcs; no panic.
+#[cfg(feature = "libm")]
+#[allow(unused_imports)]
+use crate::util::ToSvgCompat;
 use crate::geom::*;
 use crate::util::{Out, Rng};
 use crate::{Law, Prop};
